@@ -449,8 +449,8 @@ impl Monitor for C02 {
         N_DIRECTED
             + match t {
                 Tier::Tiny => 30,
-                Tier::Quick => 40_000,
-                Tier::Thorough => 800_000,
+                Tier::Quick => 48000,
+                Tier::Thorough => 576000,
             }
     }
     fn rule(&self) -> &'static str {
